@@ -6,7 +6,8 @@ import Oracle.Util
    glob <pattern> <name>                                                 → impl=<m|n|e> spec=<0|1>
    sel <org> <qlo> <qhi> N=<name,…> R=<key:org:table:lo:hi,…> U=<…> D=<org:table,…>  → rot=<keys> unrot=<keys>
    del <org> <name> T=<org:name,…>                                       → 0=<names> 1=<names> 2=<names> 3=<names>
-   out-of-fragment inputs (see Model/Tenant.lean) → out-of-fragment ; anything unparsable → bad-op -/
+   characters outside the modelled alphabet (see Model/Tenant.lean) → out-of-fragment ; anything unparsable, duplicate
+   segment keys, a deletion of the empty index name → bad-op -/
 namespace Oracle.C13
 open SigModel.Tenant Oracle
 
@@ -57,8 +58,12 @@ def seg? (s : String) : Option Seg :=
 /-- table / alias / target names: non-empty, modelled alphabet -/
 def tblOk (n : Name) : Bool := nameOk n && !n.isEmpty
 
-def exprInFragment (expr : Name) : Bool :=
-  expr.all inAlphabet && ((splitOn ',' (stripColon expr)).all (fun e => !containsStar e || elemInFragment e))
+/-- expressions: modelled alphabet (every wildcard element is quoted by the code, so nothing else is needed) -/
+/-- table names and alias targets are index names: additionally a simple file name (no `\\`, not `.`/`..`;
+`/` is outside the alphabet anyway) — the code rejects other names since the path-safety fix -/
+def idxOk (n : Name) : Bool := tblOk n && !n.contains '\\' && n != ['.'] && n != ['.', '.']
+
+def exprInFragment (expr : Name) : Bool := expr.all inAlphabet
 
 def doExpand (args : List String) : String :=
   match args with
@@ -66,7 +71,7 @@ def doExpand (args : List String) : String :=
     match org? o, (if es = "0" then some false else if es = "1" then some true else none), name? e,
           (listArg "T" t).bind (·.mapM table?), (listArg "A" a).bind (·.mapM alias?) with
     | some o, some es, some e, some ts, some as =>
-      if !(exprInFragment e && ts.all (fun p => tblOk p.2) && as.all (fun x => tblOk x.alias && x.targets.all tblOk)) then "out-of-fragment"
+      if !(exprInFragment e && ts.all (fun p => idxOk p.2) && as.all (fun x => tblOk x.alias && x.targets.all idxOk)) then "out-of-fragment"
       else
         let r := expand e o es ts as
         s!"n={r.length} r={String.intercalate ";" (r.map showName)}"
@@ -78,7 +83,7 @@ def doGlob (args : List String) : String :=
   | [p, n] =>
     match name? p, name? n with
     | some p, some n =>
-      if !(exprInFragment p && tblOk n) then "out-of-fragment" else
+      if !(exprInFragment p && idxOk n) then "out-of-fragment" else
       let r := expand p 0 true [(0, n)] []
       let impl := if r.isEmpty then "e" else if r.contains n then "m" else "n"
       s!"impl={impl} spec={if globMatch p n then 1 else 0}"
@@ -103,7 +108,7 @@ def doSel (args : List String) : String :=
     match org? o, lo.toNat?, hi.toNat?, (listArg "N" n).bind (·.mapM name?), (listArg "R" r).bind (·.mapM seg?),
           (listArg "U" u).bind (·.mapM seg?), (listArg "D" d).bind (·.mapM table?) with
     | some o, some lo, some hi, some names, some rs, some us, some ds =>
-      if !(distinctKeys rs && distinctKeys us) then "bad-op" else
+      if !(distinctKeys rs && distinctKeys us && ds.all (fun p => !p.2.isEmpty)) then "bad-op" else
       let m := ds.foldl (fun m (p : Org × Name) => m.deleteTable p.2 p.1) (Meta.ofList rs)
       s!"rot={showKeys (selectRotated lo hi names o m)} unrot={showKeys (selectUnrotated lo hi names o us)}"
     | _, _, _, _, _, _, _ => "bad-op"
@@ -114,7 +119,7 @@ def doDel (args : List String) : String :=
   | [o, n, t] =>
     match org? o, name? n, (listArg "T" t).bind (·.mapM table?) with
     | some o, some n, some ts =>
-      if !(tblOk n && ts.all (fun p => tblOk p.2)) then "out-of-fragment" else
+      if !(idxOk n && ts.all (fun p => idxOk p.2)) then "out-of-fragment" else
       let ts' := deleteTable o n (ts.foldl (fun acc p => addTable p.1 p.2 acc) [])
       String.intercalate " " ([0, 1, 2, 3].map (fun (k : Nat) =>
         s!"{k}={String.intercalate ";" ((sortU (tablesOf (k : Int) ts')).map showName)}"))
